@@ -634,6 +634,16 @@ func genLex(stream string, seed uint64, n int) []GenCase {
 		lit := strings.Repeat("0", 1+r.Intn(3)) + fmt.Sprint(v)
 		add("return "+lit+";", fmt.Sprintf("intz-%d", i), "expectint:"+fmt.Sprint(v), []string{"tokens"}, "number-literal", "leading-zero")
 	}
+	// a regexp literal is a regexp literal whatever its pattern begins with (characters that, after a `/`, could
+	// be taken for an operator or a comment), in every regexp position
+	for k, p := range [][2]string{{"=b", "a=b"}, {"==", "a==b"}, {"=", "="}, {"-b", "a-b"}, {"\\\\+", "+"}, {"!x", "!x"}, {"<a", "<a"}, {">", ">"}, {" x", "a x"}, {"\\/", "a/b"}, {"(=)", "=="},
+		{"=.*=", "=x="}, {"\\\\*", "*"}, {"&", "&"}, {"|a", "a"}, {"~", "~"}, {"%", "%"}} {
+		subj := fmt.Sprintf("%q", p[1])
+		for j, tmpl := range []string{"return %s ~= /%s/;", "return !(%s !~ /%s/);", "return match(%s, /%s/);", "switch (%s) { case /%s/ { return true; } } return false;", "x = [1, /%[2]s/]; return %[1]s ~= x[1];",
+			"return (%s ~= /%s/i) && true;"} {
+			add(fmt.Sprintf(tmpl, subj, p[0]), fmt.Sprintf("refirst-%d-%d", k, j), "expecttrue", []string{"tokens"}, "regexp-first-char")
+		}
+	}
 	// a literal keeps its own type whatever other literal of the same spelling stands in the script
 	for k, p := range [][3]string{{"3.5", "\"3.5\"", "floatstring"}, {"\"3.5\"", "3.5", "stringfloat"}, {"70000", "\"70000\"", "integerstring"}, {"\"70000\"", "70000", "stringinteger"},
 		{"/steve/", "\"steve\"", "regexpstring"}, {"\"steve\"", "/steve/", "stringregexp"}, {"70000", "70000.0", "integerfloat"}, {"70000.0", "70000", "floatinteger"},
@@ -738,6 +748,16 @@ func genFuzz(stream string, seed uint64, n int) []GenCase {
 			add(string(bs), stdObject(r), "mutated-program")
 		}
 		add(script, oddObject(r), "valid-program-odd-object")
+	}
+	// a host function may panic with any value, not just a string: an error, an integer, a struct, a slice, a float
+	for kind := 0; kind <= 5; kind++ {
+		for _, sc := range []string{"return hp();", "x = hp(); return 1;", "function f() { return hp(); } return f();", "if (Flag) { return hp(); } return 2;", "foreach v in [1, 2] { hp(); } return 3;"} {
+			c := Case{ID: fmt.Sprintf("%s-%d", stream, id), Script: sc, Opt: id%2 == 0, Tags: []string{"host-panic-value"}, Show: []string{"runbool", "spec"},
+				Fns: []HostFn{recFn(), {Name: "hp", Kind: "panic", I: kind}},
+				Runs: []Run{{Obj: stdObject(r), Polls: 5000}, {Obj: stdObject(r), Polls: 5000}}}
+			id++
+			out = append(out, GenCase{Case: c, Stream: stream, NonTrivial: true, Role: "api"})
+		}
 	}
 	// every kind of odd host object, every field of it read alone and together, through Execute and through Run
 	for k := 0; k < 9; k++ {
